@@ -78,6 +78,7 @@ def cliOp (args impl : List String) : Option (String × String) := do
       | .ok p =>
         -- logfmt=json: the command uses f1's own JSON logger, so there is no captured summary; the body's own counters stand in
         -- for the counts (such cases use users mode: nothing is dropped) and the banner clauses do not apply
+        let starved := n "setupat" * 4 > p.maxDur / 1000000 ∨ n "stall" * 4 > p.maxDur / 1000000
         let jsonLog := (get "logfmt") = some "json" ∨ (get "logfmt") = some "text" ∨ (get "loglevel").isSome
         let truth := triple "truth"
         let stats := if jsonLog then truth ++ [0] else triple "stats"
@@ -93,11 +94,15 @@ def cliOp (args impl : List String) : Option (String × String) := do
         else if setupFailed ∧ n "started" ≠ 0 then "FAIL iterations-ran-after-a-failed-setup"
         else if n "maxflight" > flightBound p.conc then "FAIL more-iterations-in-flight-than-the-concurrency-flag"
         else if p.maxIt > 0 ∧ n "started" > p.maxIt then "FAIL more-iterations-than-the-max-iterations-flag"
-        else if (get "expectlimit") = some "1" ∧ n "started" ≠ p.maxIt then "FAIL max-iterations-flag-not-reached"
+        -- (a command whose own start-up — from being handed to f1 until its scenario's setup ran — took a sizeable part of
+        -- its max-duration, or whose process went unscheduled for that long, was starved by the machine: how many iterations
+        -- fit into what was left of the duration says nothing about the code)
+        else if (get "expectlimit") = some "1" ∧ n "started" ≠ p.maxIt ∧ ¬(n "started" < p.maxIt ∧ starved) then
+          "FAIL max-iterations-flag-not-reached"
         -- (judged only when the command was not starved: one that took much longer than its run — slow file I/O, no CPU —
         -- may have found its duration over before its workers were scheduled at all)
         else if (get "expectfull") = some "1" ∧ n "maxflight" ≠ p.conc ∧
-            n "ret" ≤ p.maxDur / 1000000 + ((get "bodyms").bind String.toInt?).getD 0 + 250 then
+            n "ret" ≤ p.maxDur / 1000000 + ((get "bodyms").bind String.toInt?).getD 0 + 250 ∧ ¬starved then
           "FAIL concurrency-flag-not-all-workers-used"
         else if (n "err" = 1) ≠ specErr then "FAIL exit-status-differs-from-documented-verdict"
         else if wantErr ≠ specErr then "FAIL model-exit-differs-from-spec"
